@@ -126,8 +126,8 @@ def run(ctx):
     g = ctx.fn(BANK + "get_balance")
     if g:
         ex = [str(e) for _, k, e in g.exits()]
-        cl = [str(e) for c in prog.closures_of(g) for _, _, e in c.exits()]
-        ctx.ob("bookkeeping:balance-read", len(ex) == 1 and ex[0].startswith("Option::map(TokenBalances::get(self.balances, token), closure<") and cl == ["b.amount"],
+        cl = [v for c in prog.closures_of(g) for v in H.closure_view(prog, g, c)]
+        ctx.ob("bookkeeping:balance-read", len(ex) == 1 and ex[0].startswith("Option::map(TokenBalances::get(self.balances, token), closure<") and cl == ["$1.amount"],
                "get_balance(token) = balances.get(token).map(|b| b.amount): %s / %s" % ([x[:60] for x in ex], cl), where=g.where())
     g = ctx.fn(BANK + "record_claimed")
     if g:
@@ -151,8 +151,8 @@ def run(ctx):
             facts = A.cmp_facts(g, w["bb"])
             ok = ok and A.has_fact(facts, ">=", r"^denominator$", r"^numerator$")
             ok = ok and any(o in (">=",) and str(a) == w["path"] and str(b) == str(rv) for (o, a, b) in facts if b is not None)
-            cl = [str(e) for c in prog.closures_of(g) for _, _, e in c.exits() if "try_into" in str(e)]
-            ok = ok and cl == ["Result::ok(TryInto::try_into(b))"]
+            cl = [v for c in prog.closures_of(g) for v in H.closure_view(prog, g, c) if "try_into" in v]
+            ok = ok and cl == ["Result::ok(TryInto::try_into($1))"]
         ctx.ob("bookkeeping:reserve", ok, "reserve_balances: amount := mul_div(amount, numerator, denominator)->u64 or Err, under denominator >= numerator and amount >= new amount",
                where=g.where())
     tabs = (("states::gt_bank::TokenBalance", "amount", ["GtBank::record_all_transferred_out", "GtBank::record_transferred_in", "GtBank::record_transferred_out", "GtBank::reserve_balances"]),
